@@ -127,7 +127,7 @@ Outcomes(op, e, cur, kl, t) ==
 WrittenVal(op, e, cur) ==
   CASE op \in {"insert", "iia", "cas"} -> e.v
     [] op = "incr" -> S!CounterVal(e.res.n)
-    [] op = "patch" -> S!DocVal(e.ps)
+    [] op = "patch" -> S!DocValP(e.ps, IF cur.val.k = "d" THEN cur.val.id ELSE 0)
     [] op = "update_ttl" -> cur.val
     [] OTHER -> UnknownVal
 
